@@ -1039,6 +1039,8 @@ func (e *endpoint) HandlePacket(r *stack.Route, id stack.TransportEndpointID, vv
 func (e *endpoint) HandleControlPacket(id stack.TransportEndpointID, typ stack.ControlType, extra uint32, vv buffer.VectorisedView) {
 	log.Println("@传输层 udp: 接受处理ip层分发的icmp数据包")
 	// set the icmp control msg notice
+	// Read 在持有 rcvMu 时读取这两个字段，这里也必须加锁
+	e.rcvMu.Lock()
 	e.rcvIcmp = icmpRcv
 	switch typ {
 	case stack.ControlPortUnreachable:
@@ -1046,6 +1048,7 @@ func (e *endpoint) HandleControlPacket(id stack.TransportEndpointID, typ stack.C
 	case stack.ControlPacketTooBig:
 		e.rcvIcmpMsg = tcpip.ErrControlPacketTooBig
 	}
+	e.rcvMu.Unlock()
 	//trigger notify
 	e.waiterQueue.Notify(waiter.EventIn)
 }
